@@ -993,3 +993,50 @@ V("d-c04-seed-not-forwarded", "C04", "fire", LG, "            return distributio
 V("d-c03-anm-stores-other", "C03", "fire", AN, "        self.A = deepcopy(A)\n", "        self.A = deepcopy(np.triu(A))\n", rule="GATE.anm.stored", what="the stored matrix is not the checked one")
 V("d-c03-drfnet-no-delegation", "C03", "fire", SE, "        super().__init__(graph, data, verbose)\n", "        if verbose:\n            super().__init__(graph, data, verbose)\n        else:\n            self.graph, self._data, self.p, self.e = graph, data, graph.shape[1], len(data)\n", rule="GATE.drfnet", what="checks of the base class only run in verbose mode", accept_inconclusive=True)
 V("d-c10-extension-swallowed", "C10", "fire", UT, "    try:\n        pdag_to_dag(P)\n    except ValueError as e:\n        raise e\n", "    try:\n        pdag_to_dag(P)\n    except ValueError as e:\n        pass\n", rule="GUARD.extension", what="missing extension no longer raises")
+V("c02-ordering-wipes-boolean-input", "C02", "fire", UT, "    A = (A != 0).astype(int)\n    # Check that there are no undirected edges", "    A = np.asarray(A, dtype=bool)\n    # Check that there are no undirected edges", rule="OWN.ctor",
+  more=[(UT, "    A = A.copy()\n    sinks = list(", "    sinks = list(")], what="np.asarray(.., dtype=bool) returns a boolean argument itself: Kahn's loop empties the caller's matrix before ANM copies it")
+V("c03-ordering-wipes-boolean-input", "C03", "fire", UT, "    A = (A != 0).astype(int)\n    # Check that there are no undirected edges", "    A = np.asarray(A, dtype=bool)\n    # Check that there are no undirected edges", rule="OWN.kahn",
+  more=[(UT, "    A = A.copy()\n    sinks = list(", "    sinks = list(")], what="np.asarray(.., dtype=bool) returns a boolean argument itself")
+V("c03-silent-bool-pattern-copy", "C03", "silent", UT, "    A = (A != 0).astype(int)\n    # Check that there are no undirected edges", "    A = np.array(A, dtype=bool)\n    # Check that there are no undirected edges", what="np.array(.., dtype=bool) copies: a boolean working matrix")
+V("c05-x-centred-in-place", "C05", "fire", ND, "        x = np.atleast_1d(x)\n", "        x = np.atleast_1d(np.asarray(x, dtype=float))\n", rule="OWN.conditional",
+  more=[(ND, "        mean = mean_y + cov_yx @ np.linalg.inv(cov_x) @ (x - mean_x)\n", "        x -= mean_x\n        mean = mean_y + cov_yx @ np.linalg.inv(cov_x) @ x\n")], what="the caller's float array x is centred in place: a second call conditions on other values")
+V("c05-overlap-any-of-intersection", "C05", "fire", ND, "        if len(set(Y) & set(X)) > 0:\n", "        if np.intersect1d(Y, X).any():\n", rule="GUARD.conditional.overlap", what=".any() asks for a non-zero shared index: an overlap in variable 0 passes")
+V("c05-silent-overlap-intersect-size", "C05", "silent", ND, "        if len(set(Y) & set(X)) > 0:\n", "        if np.intersect1d(Y, X).size > 0:\n", what="size of the intersection")
+V("c05-silent-overlap-intersect-len", "C05", "silent", ND, "        if len(set(Y) & set(X)) > 0:\n", "        if len(np.intersect1d(Y, X)) != 0:\n", what="length of the intersection")
+REG_OLD = "            cov_y_xs = self.covariance[y, Xs]  # utils.matrix_block(self.covariance, y, Xs)\n            cov_xs = self.covariance[:, Xs][Xs, :]  # utils.matrix_block(self.covariance, Xs, Xs)\n            coefs[Xs] = np.linalg.solve(cov_xs, cov_y_xs)\n"
+V("c06-sorted-solve-permuted-twice", "C06", "fire", ND, REG_OLD, "            order = np.argsort(Xs)\n            Xs_sorted = Xs[order]\n            cov_y_xs = self.covariance[y, Xs_sorted]\n            cov_xs = self.covariance[:, Xs_sorted][Xs_sorted, :]\n            coefs[Xs] = np.linalg.solve(cov_xs, cov_y_xs)[order]\n",
+  rule="FORMULA.coefs", what="solution in sorted order mapped back with the sorting permutation instead of its inverse: wrong for regressors in cyclic order")
+V("c06-silent-sorted-solve", "C06", "silent", ND, REG_OLD, "            order = np.argsort(Xs)\n            Xs_sorted = Xs[order]\n            cov_y_xs = self.covariance[y, Xs_sorted]\n            cov_xs = self.covariance[:, Xs_sorted][Xs_sorted, :]\n            coefs[Xs_sorted] = np.linalg.solve(cov_xs, cov_y_xs)\n",
+  what="solved in sorted order and stored at the sorted positions")
+V("c06-silent-sorted-builtin", "C06", "silent", ND, REG_OLD, "            S_ = sorted(Xs)\n            cov_y_xs = self.covariance[y, S_]\n            cov_xs = self.covariance[:, S_][S_, :]\n            coefs[S_] = np.linalg.solve(cov_xs, cov_y_xs)\n",
+  what="sorted(Xs) used consistently")
+V("c20-size-type-check", "C20", "fire", NO, "return lambda n: np.random.uniform(lo, hi, n)", "def draw(n):\n        if not isinstance(n, int) or n < 0:\n            raise ValueError(\"n must be a non-negative integer\")\n        return np.random.uniform(lo, hi, n)\n    return draw", rule="SIZE.accepts", what="numpy integer sizes are rejected")
+V("c20-silent-size-negative-check", "C20", "silent", NO, "return lambda n: np.random.uniform(lo, hi, n)", "def draw(n):\n        if n < 0:\n            raise ValueError(\"n must be non-negative\")\n        return np.random.uniform(lo, hi, n)\n    return draw", what="only negative sizes rejected")
+V("c02-reseed-per-variable", "C02", "fire", AN, "        np.random.seed(random_state) if random_state is not None else None\n        # Sample according to a topological ordering of the connectivity matrix\n        X = np.zeros((n, self.p))\n        for i in self.ordering:\n", "        # Sample according to a topological ordering of the connectivity matrix\n        X = np.zeros((n, self.p))\n        for i in self.ordering:\n            np.random.seed(random_state) if random_state is not None else None\n", rule="R4.one-stream", what="global stream reseeded before every variable: all noise terms are the same draws")
+V("c13-reseed-per-variable", "C13", "fire", AN, "        np.random.seed(random_state) if random_state is not None else None\n        # Sample according to a topological ordering of the connectivity matrix\n        X = np.zeros((n, self.p))\n        for i in self.ordering:\n", "        # Sample according to a topological ordering of the connectivity matrix\n        X = np.zeros((n, self.p))\n        for i in self.ordering:\n            np.random.seed(random_state) if random_state is not None else None\n", rule="R4.one-stream", what="global stream reseeded before every variable")
+V("c12-two-generators", "C12", "fire", GE, "        sizes = rng.integers(size[0], size[1] + 1, K)\n", "        sizes = np.random.default_rng(random_state).integers(size[0], size[1] + 1, K)\n", rule="R4.one-stream", what="sizes and targets drawn from two generators with the same seed: perfectly correlated")
+V("c16-induced-subgraph-float-index", "C16", "fire", UT, "    mask = np.zeros_like(G, dtype=bool)\n    mask[list(S), :] = True\n    mask = np.logical_and(mask, mask.T)\n    subgraph = np.zeros_like(G)\n    subgraph[mask] = G[mask]\n", "    others = np.array([i for i in range(len(G)) if i not in S])\n    subgraph = G.copy()\n    subgraph[others, :] = 0\n    subgraph[:, others] = 0\n", rule="INDEX.empty-array", what="np.array([]) is float64: S = all nodes raises IndexError", accept_inconclusive=True)
+V("c16-isclique-set-of-degrees", "C16", "fire", UT, "    no_edges = np.sum(subgraph != 0)\n    n = len(S)\n    return no_edges == n * (n - 1)", "    return set(degrees(subgraph)) == {len(S) - 1}", rule="PW.count", what="set() == {-1} is False: the empty node set is no longer a clique")
+
+# ------------------------------------------------------------------------------- every rule fires at least once (group 2)
+V("d-c08-index-init", "C08", "fire", UT, "    indexes = list(range(len(P)))  # To keep track of the real variable\n", "    indexes = list(range(1, len(P) + 1))  # To keep track of the real variable\n", rule="INDEX", what="real names start at 1")
+V("d-c03-kahn-loop-cond", "C03", "fire", UT, "    while len(sinks) > 0:\n        i = sinks.pop()\n", "    while len(sinks) > 1:\n        i = sinks.pop()\n", rule="KAHN.loop", what="loop stops with one node left on the work list")
+V("d-c08-labels-result", "C08", "fire", UT, "        cpdag[x, y], cpdag[y, x] = 1, 1\n    return cpdag\n", "        cpdag[x, y], cpdag[y, x] = 1, 1\n    return labelled\n", rule="LABELS.result", what="the labelled matrix is returned instead of the assembled CPDAG")
+V("d-c08-labels-unknown-test", "C08", "fire", UT, "    while (labelled == UNK).any():\n", "    while (labelled == REV).any():\n", rule="LABELS.unknown", what="loop runs while reversible labels remain")
+V("d-c17-no-remainder", "C17", "fire", UT, "            if i < n_folds - 1:\n                fold_size = round(n * ratio)\n                fold_sample = sample[start:start + fold_size]\n                start += fold_size\n            else:\n                fold_sample = sample[start::]\n",
+  "            fold_size = round(n * ratio)\n            fold_sample = sample[start:start + fold_size]\n            start += fold_size\n", rule="LAST.branch", what="no remainder branch: rounding loses or duplicates observations")
+V("d-c01-layout-array", "C01", "fire", LG, "    return np.array(interventions)\n", "    return interventions\n", rule="LAYOUT.array", what="rows returned as a list of lists")
+V("d-c01-layout-iter", "C01", "fire", LG, "    for (target, params) in interventions_dict.items():\n", "    for (target, params) in sorted(interventions_dict.items(), key=lambda kv: str(kv[1])):\n", rule="LAYOUT.iter", what="rows built from a re-ordered view of the items", accept_inconclusive=True)
+V("d-c01-layout-reject", "C01", "fire", LG, "        else:\n            raise ValueError(\"Wrongly specified intervention\")\n", "        else:\n            interventions.append([target, 0, 0])\n", rule="LAYOUT.reject", what="malformed parameters silently become a do(0) intervention")
+V("d-c11-mask-not-full", "C11", "fire", GE, "    A = np.triu(np.ones((p, p)), k=1)\n", "    A = np.triu(np.ones((p, p)) - np.eye(p, k=2), k=1)\n", rule="MASK.full", what="second super-diagonal missing: not complete")
+V("d-c02-noise-reversed", "C02", "fire", AN, "        self.noise_distributions = deepcopy(noise_distributions)\n", "        self.noise_distributions = deepcopy(noise_distributions)[::-1]\n", rule="NOISE.kept", what="noise distributions stored in reverse order")
+V("d-c01-noise-block-missing", "C01", "fire", LG, "        if noise_interventions:\n            noise_interventions = _parse_interventions(noise_interventions)\n            targets = noise_interventions[:, 0].astype(int)\n            means[targets] = noise_interventions[:, 1]\n            variances[targets] = noise_interventions[:, 2]\n", "", rule="NONE.blocks", what="noise interventions ignored")
+V("d-c02-null-not-substituted", "C02", "fire", AN, "        self.assignments = [functions.null if fun is None else deepcopy(fun) for fun in assignments]\n", "        self.assignments = [deepcopy(fun) for fun in assignments]\n", rule="NULL.subst", what="None assignments are kept")
+V("d-c02-stored-matrix-other", "C02", "fire", AN, "        self.A = deepcopy(A)\n", "        self.A = deepcopy(A.T)\n", rule="ORDER.same-matrix", what="the transposed matrix is stored")
+V("d-c08-order-not-topological", "C08", "fire", UT, "    order = topological_ordering(G)\n", "    order = list(range(len(G)))\n", rule="ORDER.topological", what="index order used instead of a topological order")
+V("d-c10-orient-all-pairs", "C10", "fire", UT, "        for (i, j) in undirected_edges(P):\n            if rule_1(i, j, P)", "        for (i, j) in directed_edges(P) + undirected_edges(P):\n            if rule_1(i, j, P)", rule="ORIENT.candidates", what="directed edges are candidates too")
+V("d-c15-paths-record-early", "C15", "fire", UT, "        if current_node == to:\n            paths.append(visited + [current_node])\n", "        if current_node == to or len(visited) > 0:\n            paths.append(visited + [current_node])\n", rule="PATHS.record", what="partial paths are recorded")
+V("d-c15-paths-return-first", "C15", "fire", UT, "            stack = [(next_node, visited + [current_node], next_to_visit)] + stack\n    return paths\n", "            stack = [(next_node, visited + [current_node], next_to_visit)] + stack\n    return paths[:1]\n", rule="PATHS.return", what="only the first path is returned")
+V("d-c11-perm-switch", "C11", "fire", GE, "    print(\"avg degree = %0.2f\" % (np.sum(A) * 2 / len(A))) if debug else None\n    if return_ordering:\n", "    print(\"avg degree = %0.2f\" % (np.sum(A) * 2 / len(A))) if debug else None\n    if return_ordering and p > 2:\n", rule="PERM.switch", what="ordering only returned for p > 2")
+V("d-c10-pipeline", "C10", "fire", UT, "    G = pdag_to_dag(P)\n", "    G = only_directed(P)\n", rule="PIPELINE", what="directed part used instead of an extension", accept_inconclusive=True)
+V("d-c13-default-seed", "C13", "fire", ND, "    def sample(self, n, random_state=None):\n", "    def sample(self, n, random_state=0):\n", rule="R5.default", what="unseeded sampling defaults to seed 0: consecutive calls repeat")
